@@ -949,12 +949,8 @@ def check_item(item: dict, tier: str) -> Result:
         frontier = nxt
     sentinel(res)
     reset_globals()
-    # one defect shows up in thousands of histories: keep the first (shortest) history per signature, count the rest
-    kept: dict[str, dict] = {}
-    for v in res.violations:
-        res.count("violating_observations")
-        kept.setdefault(digest(v["signature"]), v)
-    res.violations = list(kept.values())
+    # one defect shows up in thousands of histories: the runner keeps two witnesses per signature and counts the rest
+    res.count("violating_observations", sum(getattr(res, "violation_counts", {}).values()) or len(res.violations))
     return res
 
 
